@@ -351,6 +351,10 @@ class Expander:
         for modname, m in self.modules.items():
             if modname.startswith("_fixture"):
                 continue
+            respell_imports(m)
+        for modname, m in self.modules.items():
+            if modname.startswith("_fixture"):
+                continue
             for node in m.tree.body:
                 if isinstance(node, ast.FunctionDef):
                     self._do_function(modname, None, node)
@@ -474,6 +478,209 @@ def attribute_aliases(tree: ast.AST):
                                 for k, v in enumerate(val):
                                     if isinstance(v, ast.Name) and v.id == x and isinstance(v.ctx, ast.Load):
                                         val[k] = ast.copy_location(ast.Attribute(value=ast.Name(id=me, ctx=ast.Load()), attr=a, ctx=ast.Load()), v)
+
+
+# ---------------------------------------------------------------------------
+# imported names: one spelling
+# ---------------------------------------------------------------------------
+
+def import_bindings(tree: ast.Module, modname: str, is_pkg: bool = False) -> Dict[str, Tuple[str, str]]:
+    """local name -> (fully qualified name, import statement) for the imports at module level (also inside top-level
+    try / if blocks)."""
+    out: Dict[str, Tuple[str, str]] = {}
+
+    def visit(stmts):
+        for st in stmts:
+            if isinstance(st, ast.Import):
+                for a in st.names:
+                    if a.asname:
+                        out[a.asname] = (a.name, f"import {a.name} as {a.asname}")
+                    else:
+                        root = a.name.split(".")[0]
+                        out[root] = (root, f"import {a.name}")
+            elif isinstance(st, ast.ImportFrom):
+                mod = st.module or ""
+                if st.level:
+                    base = modname.split(".")
+                    base = base[: len(base) - st.level + (1 if is_pkg else 0)]
+                    mod = ".".join(base + ([mod] if mod else []))
+                for a in st.names:
+                    if a.name == "*":
+                        continue
+                    local = a.asname or a.name
+                    out[local] = (f"{mod}.{a.name}", f"from {mod} import {a.name}" + (f" as {a.asname}" if a.asname else ""))
+            elif isinstance(st, ast.Try):
+                visit(st.body)
+                for h in st.handlers:
+                    visit(h.body)
+                visit(st.orelse)
+            elif isinstance(st, ast.If):
+                visit(st.body)
+                visit(st.orelse)
+    visit(tree.body)
+    return out
+
+
+_SPELL = None
+
+
+def _spellings():
+    global _SPELL
+    if _SPELL is None:
+        try:
+            with open(os.path.join(_HERE, "import_spellings.json")) as fh:
+                _SPELL = json.load(fh)
+        except OSError:
+            _SPELL = {"modules": {}, "global": {}}
+    return _SPELL
+
+
+def respell_imports(m) -> int:
+    """Names reached through imports are re-spelled the way the reviewed tree spells them in that module (falling back to
+    the package-wide majority): `from numpy import isnan; isnan(x)`, `import numpy; numpy.isnan(x)` and
+    `import numpy as np; np.isnan(x)` all become the reviewed `np.isnan(x)`. Names shadowed by a parameter / local of the
+    enclosing function are left alone. The import statement of a spelling that the module no longer has is added, so the
+    resolver still knows what the name is. Returns the number of rewrites."""
+    tab = _spellings()
+    tables = [tab["modules"].get(m.relpath, {}), tab["global"]]       # the module's own reviewed spelling first, then the package-wide majority
+    if not tables[0] and not tables[1]:
+        return 0
+    is_pkg = m.path.endswith("__init__.py")
+    cur = import_bindings(m.tree, m.name, is_pkg)
+    if not cur:
+        return 0
+    needed: Dict[str, str] = {}
+    count = [0]
+
+    def chain(e):
+        names = []
+        while isinstance(e, ast.Attribute):
+            names.append(e.attr)
+            e = e.value
+        if isinstance(e, ast.Name) and isinstance(e.ctx, ast.Load):
+            return e.id, list(reversed(names))
+        return None, None
+
+    def build(spelling: str, rest: List[str], like: ast.AST):
+        parts = spelling.split(".") + rest
+        node: ast.AST = ast.Name(id=parts[0], ctx=ast.Load())
+        for a in parts[1:]:
+            node = ast.Attribute(value=node, attr=a, ctx=ast.Load())
+        for x in ast.walk(node):
+            ast.copy_location(x, like)
+        return node
+
+    class R(ast.NodeTransformer):
+        def __init__(self):
+            self.shadow: List[Set[str]] = [set()]
+
+        def _scope(self, node, names):
+            self.shadow.append(self.shadow[-1] | names)
+            self.generic_visit(node)
+            self.shadow.pop()
+            return node
+
+        def visit_FunctionDef(self, node):
+            names = {a.arg for a in node.args.args + node.args.kwonlyargs + node.args.posonlyargs}
+            for a in (node.args.vararg, node.args.kwarg):
+                if a is not None:
+                    names.add(a.arg)
+            for x in ast.walk(node):
+                if isinstance(x, ast.Name) and isinstance(x.ctx, (ast.Store, ast.Del)):
+                    names.add(x.id)
+                elif isinstance(x, (ast.FunctionDef, ast.ClassDef)) and x is not node:
+                    names.add(x.name)
+                elif isinstance(x, ast.arg):
+                    names.add(x.arg)
+                elif isinstance(x, (ast.Import, ast.ImportFrom)):
+                    for a in x.names:
+                        names.add((a.asname or a.name).split(".")[0])
+            return self._scope(node, names)
+        visit_AsyncFunctionDef = visit_FunctionDef
+
+        def visit_Lambda(self, node):
+            return self._scope(node, {a.arg for a in node.args.args + node.args.kwonlyargs})
+
+        def visit_ClassDef(self, node):
+            names = {t.id for st in node.body if isinstance(st, (ast.Assign, ast.AnnAssign)) for t in (st.targets if isinstance(st, ast.Assign) else [st.target]) if isinstance(t, ast.Name)}
+            # class-level names are not visible inside methods: only shadow at class level itself
+            self.shadow.append(self.shadow[-1] | names)
+            new_body = []
+            for st in node.body:
+                if isinstance(st, (ast.FunctionDef, ast.AsyncFunctionDef)):
+                    saved = self.shadow
+                    self.shadow = [saved[-2] if len(saved) > 1 else set()]
+                    new_body.append(self.visit(st))
+                    self.shadow = saved
+                else:
+                    new_body.append(self.visit(st))
+            node.body = new_body
+            node.decorator_list = [self.visit(d) for d in node.decorator_list]
+            node.bases = [self.visit(b) for b in node.bases]
+            self.shadow.pop()
+            return node
+
+        def _try(self, node):
+            root, rest = chain(node)
+            if root is None or root in self.shadow[-1] or root not in cur:
+                return None
+            fq = cur[root][0].split(".") + rest
+            for reviewed, k in [(t_, k_) for t_ in tables for k_ in range(len(fq), 0, -1)]:
+                key = ".".join(fq[:k])
+                if key in reviewed:
+                    spelling, stmt = reviewed[key]
+                    new_parts = spelling.split(".") + fq[k:]
+                    old_parts = [root] + rest
+                    if new_parts == old_parts:
+                        return None
+                    if spelling.split(".")[0] in self.shadow[-1]:
+                        return None
+                    if cur.get(spelling, (None, None))[0] != key:
+                        needed[spelling] = stmt
+                    count[0] += 1
+                    return build(spelling, fq[k:], node)
+            return None
+
+        def visit_Attribute(self, node):
+            if isinstance(node.ctx, ast.Load):
+                r = self._try(node)
+                if r is not None:
+                    return r
+            return self.generic_visit(node)
+
+        def visit_Name(self, node):
+            if isinstance(node.ctx, ast.Load):
+                r = self._try(node)
+                if r is not None:
+                    return r
+            return node
+
+    module_level = {t.id for st in m.tree.body if isinstance(st, (ast.Assign, ast.AnnAssign)) for t in (st.targets if isinstance(st, ast.Assign) else [st.target]) if isinstance(t, ast.Name)}
+    module_level |= {st.name for st in m.tree.body if isinstance(st, (ast.FunctionDef, ast.ClassDef))}
+    r = R()
+    r.shadow = [set(n for n in module_level if n not in cur)]
+    body = []
+    for st in m.tree.body:
+        if isinstance(st, (ast.Import, ast.ImportFrom)):
+            body.append(st)
+        else:
+            body.append(r.visit(st))
+    m.tree.body = body
+    if needed:
+        extra = []
+        for local, stmt in sorted(needed.items()):
+            if local in cur and cur[local][1] == stmt:
+                continue
+            extra.extend(ast.parse(stmt).body)
+        # after the docstring / __future__ imports
+        k = 0
+        while k < len(m.tree.body) and (isinstance(m.tree.body[k], ast.Expr) and isinstance(m.tree.body[k].value, ast.Constant) or isinstance(m.tree.body[k], ast.ImportFrom) and m.tree.body[k].module == "__future__"):
+            k += 1
+        # the reviewed spellings win: they go LAST among the imports so that they rebind a name the edit reused
+        last_imp = max([i for i, st in enumerate(m.tree.body) if isinstance(st, (ast.Import, ast.ImportFrom))] + [k - 1])
+        m.tree.body[last_imp + 1:last_imp + 1] = extra
+        ast.fix_missing_locations(m.tree)
+    return count[0]
 
 
 MUTATORS = {"append", "appendleft", "extend", "insert", "add", "update", "setdefault", "remove", "discard", "pop", "popleft", "clear"}
